@@ -275,9 +275,18 @@ def _type_ok(t, v):
     return jt == t
 
 
-def lite_valid(doc, schema, v, _fuel=200):
+_LV_STEPS = [0]
+_IN_GEN = [0]      # > 0 while gen_valid runs: its lite_valid calls share ONE work budget
+
+def lite_valid(doc, schema, v, _fuel=None):
     """Small draft-07 validator for the fragment (string formats are ignored, integer formats are
-    ranges). Used for branch selection inside the generators; the judge is tools/oracle.py."""
+    ranges). Used for branch selection inside the generators; the judge is tools/oracle.py.
+    Bounded in depth (_fuel) AND in total work: a union whose branches refer back to it would otherwise cost 2^depth."""
+    if _fuel is None:
+        if _IN_GEN[0] == 0: _LV_STEPS[0] = 0
+        _fuel = 200
+    _LV_STEPS[0] += 1
+    if _LV_STEPS[0] > 300000: return False
     if schema is True: return True
     if schema is False: return False
     if not isinstance(schema, dict): return True
@@ -1700,16 +1709,22 @@ def gen_valid(rng, doc, schema, depth=3, mode="random"):
     STATS["gen_calls"] += 1
     g = _Gen(rng, doc, mode)
     last = None
-    for attempt in range(6):
-        try:
-            v = g.gen(schema, depth)
-        except Unsat as e:
-            last = e
-            if attempt >= 2: raise
-            continue
-        if lite_valid(doc, schema, v): return v
-        STATS["gen_retries"] += 1
-    raise Unsat("generated instances failed the self check" if last is None else str(last))
+    outer = _IN_GEN[0] == 0
+    if outer: _LV_STEPS[0] = 0
+    _IN_GEN[0] += 1
+    try:
+        for attempt in range(6):
+            try:
+                v = g.gen(schema, depth)
+            except Unsat as e:
+                last = e
+                if attempt >= 2: raise
+                continue
+            if lite_valid(doc, schema, v): return v
+            STATS["gen_retries"] += 1
+        raise Unsat("generated instances failed the self check" if last is None else str(last))
+    finally:
+        _IN_GEN[0] -= 1
 
 
 BOUNDARY_MODES = ["min", "max", "all_omitted", "all_present", "multibyte", "empty_present", "all_present@0", "all_present@1", "all_present@2"]
